@@ -181,7 +181,7 @@ type op struct {
 	write        bool
 	ns, key, att int
 	d            dv
-	extra        int // extra DataValue fields the write carries: 1 status code (Good), 2 source timestamp
+	extra        int // what else the write carries: 1 status code (Good), 2 source timestamp, 4 an IndexRange (the server ignores it: the whole value is replaced)
 }
 
 func (o op) String() string {
@@ -279,7 +279,7 @@ var accessSlots = []dv{
 	{2, 3, 0}, {2, 3, 1}, {2, 3, 2}, {2, 3, 3}, {2, 3, 4}, {2, 3, 255}, {2, 3, 0xfd}, {2, 3, 0xfe},
 	{2, 7, 1}, {2, 7, 3}, {2, 6, 3}, {2, 2, 3}, {2, 12, 3}, {2, 1, 1}, {2, 0, 0}, {2, 15, 3}, {2, 64 + 7, 3},
 }
-var valueSlots = []dv{{}, {kind: 1}, {2, 6, 742}, {2, 7, 9}, {2, 3, 3}, {2, 12, 55}, {2, 1, 1}, {2, 64 + 6, 8}, {2, 0, 0}}
+var valueSlots = []dv{{}, {kind: 1}, {2, 6, 742}, {2, 7, 9}, {2, 3, 3}, {2, 12, 55}, {2, 1, 1}, {2, 64 + 6, 8}, {2, 64 + 7, 5}, {2, 15, 9}, {2, 0, 0}}
 var classSlots = []dv{{}, {2, 7, 2}, {2, 6, 2}, {2, 3, 2}, {kind: 1}}
 
 type env struct {
@@ -348,7 +348,7 @@ func (e *env) genHist(ual, al dv) hist {
 				o.d = valueSlots[e.rnd.Intn(len(valueSlots))]
 			}
 			if o.d.kind != 0 && e.rnd.Chance(30) {
-				o.extra = 1 + e.rnd.Intn(3)
+				o.extra = 1 + e.rnd.Intn(7)
 			}
 		} else {
 			o.att = e.rnd.Pick(13, 13, 13, 13, 17, 18, 1, 2, 12, 4, 22)
@@ -451,7 +451,11 @@ func (e *env) exec(o op, keyShift int, wire bool) string {
 			val.EncodingMask |= ua.DataValueSourceTimestamp
 			val.SourceTimestamp = time.Date(2020, 1, 1, 0, 0, 0, 0, time.UTC)
 		}
-		req := &ua.WriteRequest{RequestHeader: &ua.RequestHeader{}, NodesToWrite: []*ua.WriteValue{{NodeID: id, AttributeID: ua.AttributeID(o.att), Value: val}}}
+		rng := ""
+		if o.extra&4 != 0 {
+			rng = "0"
+		}
+		req := &ua.WriteRequest{RequestHeader: &ua.RequestHeader{}, NodesToWrite: []*ua.WriteValue{{NodeID: id, AttributeID: ua.AttributeID(o.att), IndexRange: rng, Value: val}}}
 		if wire {
 			resp, err := e.c.Write(context.Background(), req)
 			if err != nil || len(resp.Results) != 1 {
